@@ -59,8 +59,21 @@ def csig(sig):
     return f'{{| sg_pos := {pl}; sg_varargs := {coq_bool(sig["varargs"])}; sg_kwonly := {kl}; sg_varkw := {coq_bool(sig["varkw"])} |}}'
 
 
-def cfspec(is_async, sig, outs, tail):
-    return f'{{| f_iscoro := {coq_bool(is_async)}; f_sig := {csig(sig)}; f_outs := {coq_list([cout(o) for o in outs])}; f_tail := {cout(tail)} |}}'
+def cfspec(is_async, sig, outs, tail, named=True):
+    return (f'{{| f_iscoro := {coq_bool(is_async)}; f_sig := {csig(sig)}; f_outs := {coq_list([cout(o) for o in outs])}; '
+            f'f_tail := {cout(tail)}; f_named := {coq_bool(named)} |}}')
+
+
+def cbad(c):
+    """objects whose __repr__ raises.  case['ideal_repr'] (never sent to the implementation) pretends every repr is harmless;
+    a class with its own __repr__ under trace_class: the traced __repr__ prints its own self - RecursionError"""
+    if c.get('ideal_repr'):
+        return '[]'
+    bad = [(int(k), v) for k, v in sorted((c.get('badrepr') or {}).items(), key=lambda kv: int(kv[0]))]
+    if c.get('kind') == 'class' and c.get('own_repr') == 'repr' and c['deco'] == 'trace_class':
+        bad += [(50, [0, 6, 0]), (51, [0, 6, 0])]
+    return coq_list([f'({coq_nat(n)}, {cexn(e)})' for n, e in bad])
+
 
 
 def all_levels(case):
@@ -107,11 +120,13 @@ def coq_case(c):
         a = [50 if x == 'inst' else 51 if x == 'subinst' else x for x in c['a']]
         self_ = 51 if c['access'] == 'subinst' else 50
         k = coq_list([f'("{n}", {cval(x)})' for n, x in c["k"]])
-        return (f'eval_class {DN[c["deco"][:-6]]} {f} {MEMBER[c["member"]]} {ACCESS[c["access"]]} (VObj {self_}) (VCls 0) (VCls 1) '
+        return (f'eval_class {cbad(c)} {DN[c["deco"][:-6]]} {f} {MEMBER[c["member"]]} {ACCESS[c["access"]]} (VObj {self_}) (VCls 0) (VCls 1) '
                 f'{coq_list([cval(x) for x in a])} {k}')
     o = c.get('other') or NO_OTHER
     nre = len(c.get('redeco', []))
-    return (f'eval_case {coq_list([clspec(l, c, nre + i) for i, l in enumerate(c["stack"])])} {cfspec(c["async"], c["sig"], c["outs"], c["tail"])} '
+    named = not c.get('nameless') or bool(c.get('ideal_named'))
+    return (f'eval_case {cbad(c)} {coq_list([clspec(l, c, nre + i) for i, l in enumerate(c["stack"])])} '
+            f'{cfspec(c["async"], c["sig"], c["outs"], c["tail"], named)} '
             f'{cfspec(o["async"], o["sig"], o["outs"], o["tail"])} {FA[c.get("filter", "default")]} '
             f'{coq_list([ccall(x, c.get("method")) for x in c["calls"]])} '
             f'{coq_list([clspec(l, c, i) for i, l in enumerate(c.get("redeco", []))])} '
@@ -372,9 +387,30 @@ def gen_level(rng, d, sig, method, style):
     return l
 
 
-def gen_stack_case(rng, names, style, is_async=None, tier='quick', redeco=None, collide=None, sig=None, all_keywords=False):
-    """redeco: names of the decorators applied (by call) to the USED callable after the first part of the history"""
-    method = rng.random() < 0.3 if sig is None else False
+REPR_EXC = [[0, 1], [0, 2], [0, 20], [0, 5], [1], [4]]
+
+
+def add_bad_repr(rng, case, where=None):
+    """give one or two of the objects that travel through the call a __repr__ that raises"""
+    if any(l['d'] == 'require_kwargs' for l in all_levels(case)) or case.get('nameless'):
+        return          # (the message of PedanticCallWithArgsException formats the arguments too: not modelled)
+    calls = list(case['calls']) + list(case.get('calls2', []))
+    argc = [x for c in calls for x in c['a'] if isinstance(x, int)] + [kv[1] for c in calls for kv in c['k']]
+    resc = [o[1] for o in case['outs'] if o[0] == 'ret' and o[1] is not None]
+    if 'other' in case:
+        resc += [o[1] for o in case['other']['outs'] if o[0] == 'ret' and o[1] is not None]
+    pool = argc if where == 'arg' else resc if where == 'result' else argc + resc
+    if pool:
+        case['badrepr'] = {str(x): rng.choice(REPR_EXC) for x in rng.sample(pool, min(len(pool), rng.choice([1, 1, 2])))}
+
+
+def gen_stack_case(rng, names, style, is_async=None, tier='quick', redeco=None, collide=None, sig=None, all_keywords=False,
+                   nameless=None, badrepr=None):
+    """redeco: names of the decorators applied (by call) to the USED callable after the first part of the history;
+    nameless: what is decorated is functools.partial(f) / an instance with __call__; badrepr: 'arg' | 'result' | 'any'"""
+    if nameless is None and sig is None and redeco is None and rng.random() < 0.06:
+        nameless = rng.choice(['partial', 'partial', 'object'])
+    method = rng.random() < 0.3 if (sig is None and not nameless) else False
     is_async = rng.random() < 0.45 if is_async is None else is_async
     sig = gen_sig(rng, method, collide=collide) if sig is None else sig
     if redeco is None:
@@ -384,6 +420,10 @@ def gen_stack_case(rng, names, style, is_async=None, tier='quick', redeco=None, 
                       for _ in range(rng.choice([1, 1, 2]))]
     case = {'kind': 'stack', 'stream': style, 'async': is_async, 'method': method, 'sig': sig,
             'apply': '@' if rng.random() < 0.8 else 'call'}
+    if nameless:
+        if nameless == 'object':
+            case['async'] = is_async = False          # iscoroutinefunction does not look into __call__
+        case['nameless'], case['apply'] = nameless, 'call'
     case['stack'] = [gen_level(rng, d, sig, method, style) for d in names]
     if redeco:
         case['redeco'] = [gen_level(rng, d, sig, method, 'valid') for d in redeco]
@@ -448,6 +488,8 @@ def gen_stack_case(rng, names, style, is_async=None, tier='quick', redeco=None, 
         case['other'] = o
     if 'deprecated' in everything:
         case['filter'] = rng.choice(['default', 'error', 'ignore', 'always'])
+    if badrepr or (badrepr is None and not nameless and rng.random() < 0.1):
+        add_bad_repr(rng, case, badrepr if badrepr in ('arg', 'result') else None)
     return case
 
 
@@ -489,7 +531,16 @@ def gen_stack_cases(rng, tier, scale):
             for is_async in (False, True):
                 for _ in range(scale):
                     cases.append(gen_stack_case(rng, names, 'valid', is_async, tier, redeco=re))
-    n_rand = (1100 if tier == 'quick' else 24000) * scale
+    # messages: values whose __repr__ raises, callables without __name__ / __qualname__, under every decorator
+    for names in singles:
+        for is_async in (False, True):
+            for _ in range(scale):
+                for where in ('arg', 'result'):
+                    cases.append(gen_stack_case(rng, names, 'valid', is_async, tier, redeco=[], badrepr=where))
+                cases.append(gen_stack_case(rng, names, 'valid', is_async, tier, redeco=[], nameless='partial'))
+            for _ in range(scale):
+                cases.append(gen_stack_case(rng, names, 'valid', False, tier, redeco=[], nameless='object'))
+    n_rand = (1000 if tier == 'quick' else 24000) * scale
     for _ in range(n_rand):
         h = rng.choice([1, 2, 2, 3, 3, 4])
         names = [rng.choice(FULL) for _ in range(h)]
@@ -520,6 +571,18 @@ def gen_class_cases(rng, tier, scale):
                             c = {'a': [], 'k': []}
                         cases.append({'kind': 'class', 'stream': 'classes', 'deco': deco, 'member': member, 'access': access,
                                       'async': is_async and member != 'prop', 'sig': sig, 'a': c['a'], 'k': c['k'],
+                                      'outs': [gen_out(rng, 0)], 'tail': ['ret', None]})
+    for deco in ('trace_class', 'timer_class'):
+        for own in ('repr', 'str'):
+            for access in ('inst', 'subinst', 'class'):
+                for is_async in (False, True):
+                    for _ in range(scale):
+                        sig = gen_sig(rng, False, rich=False, collide=False)
+                        c = gen_call(rng, sig, False, 'valid')
+                        if access == 'class':
+                            c['a'] = [rng.choice(['inst', 'subinst'])] + c['a']
+                        cases.append({'kind': 'class', 'stream': 'classes', 'deco': deco, 'member': 'func', 'access': access,
+                                      'async': is_async, 'sig': sig, 'a': c['a'], 'k': c['k'], 'own_repr': own,
                                       'outs': [gen_out(rng, 0)], 'tail': ['ret', None]})
     return cases
 
@@ -640,7 +703,17 @@ def stack_props(c, obs, twin, s, sigs, count_stats=True):
     return prop
 
 
-PENDING = {}        # case key -> (spec, twin observation): stack cases whose failure may be the registered K12 defect
+PENDING = {}        # case key -> (idealisation flag, matcher id, ...): cases whose failure may be a registered defect
+K12_ID = 'require_kwargs_applied_by_call_over_a_wrapper_of_a_method'
+K13_ID = 'message_formats_a_value_whose_repr_fails'
+K14_ID = 'wrapper_names_a_callable_without_name'
+ATTRIBUTE_ERROR, RECURSION_ERROR = 105, 10701
+
+
+def repr_failure(r):
+    """the result is the exception of a failing __repr__: the prepared instance of a value, or the interpreter's RecursionError"""
+    return r is not None and r[0] == 6 and (2000 <= r[2] < 3000 or (r[1] == RECURSION_ERROR and r[2] == 5000))
+
 
 
 def judge_stack(c, impl, out):
@@ -664,6 +737,8 @@ def judge_stack(c, impl, out):
             prop.append(f'decoration raises {dec.get("deco_error_repr", "nothing")}, the statement demands '
                         f'{"PedanticOverrideException" if want else "no exception"} (overrides raises iff the base class lacks the name)')
         stat('decoration-time outcomes (overrides)')
+        if prop and not corr and c.get('nameless') and dec.get('deco_error') == ATTRIBUTE_ERROR:
+            PENDING[case_key(c)] = ('ideal_named', K14_ID, twin, {0: (c['sig'], 80), 1: ((c.get('other') or NO_OTHER)['sig'], 60)})
         return corr, prop
     if 'redeco_error' in dec:
         return [f'the second decoration raised: {dec["redeco_error"]}'], []
@@ -690,7 +765,13 @@ def judge_stack(c, impl, out):
     if prop and not corr and c.get('method') and any(l['d'] == 'require_kwargs' for l in all_levels(c)):
         calls = list(c['calls']) + list(c.get('calls2', []))
         if any(r == [6, 10104, 5000] and not call['a'] for r, call in zip(obs['results'], calls)):
-            PENDING[case_key(c)] = (s, twin, sigs)
+            PENDING[case_key(c)] = ('ideal_kw', K12_ID, twin, sigs)
+    # ... for the registered message defects: a value with a failing __repr__ / a callable without __name__ is involved,
+    # the model reproduces the implementation, and the caller got exactly that failure
+    if prop and not corr and c.get('badrepr') and any(repr_failure(r) for r in obs['results']):
+        PENDING[case_key(c)] = ('ideal_repr', K13_ID, twin, sigs)
+    if prop and not corr and c.get('nameless') and any(r == [6, ATTRIBUTE_ERROR, 5000] for r in obs['results']):
+        PENDING[case_key(c)] = ('ideal_named', K14_ID, twin, sigs)
     return corr, prop
 
 
@@ -764,6 +845,9 @@ def judge_class(c, impl, out):
             EXPLAINED[case_key(c)] = 'for_all_methods_static_or_class_method_through_instance'
         elif c['member'] == 'classm' and c['access'] == 'subclass':
             EXPLAINED[case_key(c)] = 'for_all_methods_classmethod_through_subclass'
+    if prop and not corr and (c.get('own_repr') or c.get('badrepr')) and repr_failure(dec['result']) \
+            and case_key(c) not in EXPLAINED:
+        PENDING[case_key(c)] = ('ideal_repr', K13_ID, None, None)
     return corr, prop
 
 
@@ -805,7 +889,7 @@ EXPLAINED = {}      # case -> matcher id of the registered defect that fully exp
 
 
 def case_key(c):
-    return json.dumps({k: v for k, v in c.items() if k != 'ideal_kw'}, sort_keys=True)
+    return json.dumps({k: v for k, v in c.items() if not k.startswith('ideal_')}, sort_keys=True)
 
 
 def matcher(f, case):
@@ -888,18 +972,24 @@ def run(tier, seed, replay=None):
             except Exception as ex:
                 corr, prop = [f'judge failed: {ex!r}'], []
             res.append((corr, prop, i, m))
-        # is a require_kwargs failure exactly the registered defect?  Re-evaluate the MODEL with the receiver of a method
-        # always recognised by the keyword-only test: if the statement then holds on the model, the defect is that
-        # recognition and nothing else
+        # is a failure exactly a registered defect?  Re-evaluate the MODEL with the registered mechanism idealised away
+        # (the receiver of a method always recognised by the keyword-only test / every repr harmless / the callable
+        # named): if the statement then holds on the model, the defect is that mechanism and nothing else
         cand = [c for c in cases if case_key(c) in PENDING and case_key(c) not in EXPLAINED]
         if cand and ck.model_ok:
-            outs = ck.coq_eval(PRE, [coq_case(dict(c, ideal_kw=True)) for c in cand], chunk=150)
+            outs = ck.coq_eval(PRE, [coq_case(dict(c, **{PENDING[case_key(c)][0]: True})) for c in cand], chunk=150)
             for c, out in zip(cand, outs):
-                sp, twin, sigs = PENDING.pop(case_key(c))
+                flag, fid, twin, sigs = PENDING.pop(case_key(c))
                 try:
-                    mi, si = parse_stack_output(out, c)      # model and documented effect, both with the idealised test
-                    if 'deco_error' not in mi and not stack_props(c, model_obs(c, mi, sigs), twin, si, sigs, count_stats=False):
-                        EXPLAINED[case_key(c)] = 'require_kwargs_applied_by_call_over_a_wrapper_of_a_method'
+                    if c.get('kind') == 'class':
+                        md, mo, _ = parse_class_output(out)
+                        nost = lambda d: (d.get('reach'), d.get('result'), [(e['callee'], e['a'], e['k']) for e in d.get('journal', [])])
+                        if nost(md) == nost(mo):
+                            EXPLAINED[case_key(c)] = fid
+                    else:
+                        mi, si = parse_stack_output(out, c)      # model and documented effect, both idealised
+                        if 'deco_error' not in mi and not stack_props(c, model_obs(c, mi, sigs), twin, si, sigs, count_stats=False):
+                            EXPLAINED[case_key(c)] = fid
                 except Exception:
                     pass
         return res
